@@ -640,6 +640,10 @@ fn judge_lmc_r<R: Real>(cx: &Cx, w: &[u64], o: &LmcOut, t: &mut Tally) -> Result
     t.eval(7);
     let mut nontrivial = false;
 
+    // operands near the top of the range (either sign): b - a, a + b and every length overflow, the convex combination
+    // a (1 - s) + b s does not; only the lerp clauses are judged there
+    let top = if bits == 32 { 2f64.powi(120) } else { 2f64.powi(1000) };
+    let huge = av[..n].iter().chain(bv[..n].iter()).any(|x| x.abs() > top);
     // ---- lerp: s = 0 -> first operand, s = 1 -> second, exactly (as IEEE values); affine in between
     for i in 0..n {
         if !(o.lerp0[i] == av[i]) {
@@ -657,6 +661,9 @@ fn judge_lmc_r<R: Real>(cx: &Cx, w: &[u64], o: &LmcOut, t: &mut Tally) -> Result
             return Err(cx.fail("lerp", format!("lane {i}: got {:e} expected {:e} |err| {:e} > tol {:e}; {}", o.lerp_s[i], want.f(), err, tol, ctx())));
         }
         t.ratio("lerp", err / tol);
+        if huge {
+            continue;
+        }
         let wm = a[i].add(b[i]).mul(R::of(0.5));
         let tolm = k2(1.0) * u * 0.5 * (av[i].abs() + bv[i].abs()) + 4.0 * tiny;
         let errm = R::of(o.midpoint[i]).sub(wm).abs().f();
@@ -667,6 +674,13 @@ fn judge_lmc_r<R: Real>(cx: &Cx, w: &[u64], o: &LmcOut, t: &mut Tally) -> Result
     }
     if s > 0.0 && s < 1.0 {
         nontrivial = true;
+    }
+    if huge {
+        t.class("lerp:operands near the top of the range (lerp only)");
+        if (0.0..=1.0).contains(&s) {
+            t.nontrivial(cx.hash(w));
+        }
+        return Ok(());
     }
 
     // ---- move_towards (d >= 0 generated): the target itself within reach (len <= d or len <= 1e-4), else the point at distance d
